@@ -180,6 +180,9 @@ def apply_reference(repo):
         repo.inlined_helpers = {}
     # a function whose tree is identical to the reference needs no translation
     ref = {q: r for q, r in ref.items() if q in repo.funcs and not repo.funcs[q].is_lambda and r.get("digest") != _digest(repo.funcs[q].node)}
+    for q in list(repo.inlined_helpers):
+        if q in repo.funcs:
+            _merge_renamed_locals(repo.funcs[q])
     renamed = {}
     for q, fi in repo.funcs.items():
         if fi.is_lambda or q not in ref:
@@ -233,6 +236,7 @@ def apply_reference(repo):
     repo.folded_temporaries = inline_new_temporaries(repo, ref) if not os.environ.get("VERIF_NO_FOLD_TEMPS") else {}
     repo.respelled = respell(repo, ref)
     repo.positional = positional_calls(repo, ref)
+    _clear_analysis_caches()
     return renamed
 
 
@@ -269,6 +273,7 @@ def _rename(fnode, mapping):
         if isinstance(c, ast.Name) and c.id in mapping and c.id not in shadow:
             c._orig_id = c.id
             c.id = mapping[c.id]
+            _invalidate(c)
         if isinstance(c, ast.ExceptHandler) and c.name in mapping and c.name not in shadow:
             c._orig_name = c.name
             c.name = mapping[c.name]
@@ -415,9 +420,15 @@ def inline_new_aliases(repo, ref):
                 # on *its* self writes another object
                 related = {fi.cls} | set(_mro(fi.cls)) | {c for c in repo.classes.values() if fi.cls in _mro(c)}
                 keep = set()
+                star = writers.get("*", set())
                 for wq in bad_fns:
                     w = repo.funcs.get(wq)
-                    if w is None or w.cls is None or w.cls in related or not _stores_only_on_self(w, ch[1]):
+                    if w is None or w.cls is None or w.cls in related:
+                        keep.add(wq)
+                    elif wq in star and wq not in writers.get(ch[1], set()):
+                        if not _setattr_only_on_own(w):
+                            keep.add(wq)
+                    elif not _stores_only_on_self(w, ch[1]):
                         keep.add(wq)
                 bad_fns = keep
             if calls and bad_fns:
@@ -1749,4 +1760,73 @@ def _inline_generator(repo, hq, h, params, decos, done):
             lst.remove(h)
     else:
         h.module.funcs.pop(h.name, None)
+    return True
+
+
+def _clear_analysis_caches():
+    from . import cfg as _cfg, defuse as _du
+    _cfg._CACHE.clear()
+    _du._DU.clear()
+
+
+def _reaching_sets(fi, names):
+    """{id(load node): frozenset(definition cfg nodes)} for the loads of the given names (fresh CFG / def-use)"""
+    _clear_analysis_caches()
+    from .defuse import DefUse
+    du = DefUse(fi)
+    out = {}
+    for n in walk_own(fi.node):
+        if isinstance(n, ast.Name) and isinstance(n.ctx, ast.Load) and n.id in names:
+            node = du.cfg.node_of(n)
+            if node is None:
+                out[id(n)] = None
+                continue
+            out[id(n)] = frozenset(d[0] for d in du.reaching(n.id, node.id))
+    return out
+
+
+def _merge_renamed_locals(fi):
+    """a local that the inlining renamed to x__h / x__g because the caller has a local x: when the two never hold a value the
+    other one reads (every read keeps exactly the definitions that reached it before), they can share the name x again - which
+    is what the code looked like before the helper was extracted"""
+    names = sorted({n.id for n in walk_own(fi.node) if isinstance(n, ast.Name) and (n.id.endswith("__h") or n.id.endswith("__g"))}
+                   | {h.name for h in walk_own(fi.node) if isinstance(h, ast.ExceptHandler) and h.name and (h.name.endswith("__h") or h.name.endswith("__g"))})
+    for a in names:
+        b = a[:-3]
+        try:
+            before = _reaching_sets(fi, {a, b})
+            if any(v is None for v in before.values()):
+                continue
+            _rename(fi.node, {a: b})
+            after = _reaching_sets(fi, {b})
+            if any(after.get(k) != v for k, v in before.items()):
+                # undo
+                for n in walk_own(fi.node):
+                    if isinstance(n, ast.Name) and getattr(n, "_orig_id", None) == a and n.id == b:
+                        n.id = a
+                        _invalidate(n)
+                    if isinstance(n, ast.ExceptHandler) and getattr(n, "_orig_name", None) == a and n.name == b:
+                        n.name = a
+            else:
+                for n in walk_own(fi.node):
+                    if isinstance(n, ast.Name) and getattr(n, "_orig_id", None) == a:
+                        del n._orig_id
+            _invalidate(fi.node)
+        except Exception:
+            continue
+    _clear_analysis_caches()
+
+
+def _setattr_only_on_own(fi):
+    """every setattr / delattr of the method targets its own receiver or a fresh instance of its own class (x = cls())"""
+    recv = fi.params[0] if fi.params else None
+    fresh = set()
+    for n in walk_own(fi.node):
+        if isinstance(n, ast.Assign) and len(n.targets) == 1 and isinstance(n.targets[0], ast.Name) and isinstance(n.value, ast.Call) and not n.value.args \
+                and isinstance(n.value.func, ast.Name) and n.value.func.id == recv:
+            fresh.add(n.targets[0].id)
+    for n in walk_own(fi.node):
+        if isinstance(n, ast.Call) and isinstance(n.func, ast.Name) and n.func.id in ("setattr", "delattr"):
+            if not (n.args and isinstance(n.args[0], ast.Name) and (n.args[0].id == recv or n.args[0].id in fresh)):
+                return False
     return True
